@@ -290,3 +290,11 @@ func Raftkvs(c RaftCfg) *mpexec.System {
 	}
 	return s
 }
+
+func init() {
+	Register("raftkvs", func(n int, args map[string]int) *mpexec.System {
+		return Raftkvs(RaftCfg{NumServers: n, NumClients: Arg(args, "clients", 1), BufferSize: Arg(args, "buffer", 3),
+			MaxNodeFail: Arg(args, "maxfail", 1), ExploreFail: Arg(args, "fail", 1) == 1, LeaderTimeoutReset: Arg(args, "ltreset", 1) == 1,
+			AllStrings: []string{"s1", "s2", "s3"}[:Arg(args, "strings", 2)], FIFO: Arg(args, "fifo", 0) == 1})
+	})
+}
